@@ -133,7 +133,7 @@ def judge(ctx, owns_crash=False, frame=False, extra_owner=None):
     for stage, v in ctx.verdicts:
         j = v["j"]
         kind = j["v"]
-        mine = j.get("owner") == ctx.pid or (extra_owner and extra_owner(j))
+        mine = j.get("owner") in (ctx.pid, "*") or (extra_owner and extra_owner(j))
         if kind == "envelope":
             ctx.stats["envelope"] += 1
             continue
